@@ -51,8 +51,9 @@ pub open spec fn painted_spaces(style: Style, n: usize) -> Seq<char> { painted(s
 pub broadcast axiom fn axiom_width_of_appended_spaces(a: Seq<char>, style: Style, n: usize)
     ensures #[trigger] vis_width(a + painted(style, repeated(" "@, n))) == vis_width(a) + n;
 
-/// what `Painter::right_fill_background_color` / `Painter::mark_empty_line` make of a painted line (ansi_term string assembly; uninterpreted)
-pub uninterp spec fn right_filled(line: Seq<char>, fill_style: Style) -> Seq<char>;
+//@ type src/ansi/mod.rs ANSI_CSI_CLEAR_TO_EOL
+//@ type src/ansi/mod.rs ANSI_SGR_RESET
+/// what `Painter::mark_empty_line` makes of a painted line (ansi_term string assembly; uninterpreted)
 pub uninterp spec fn marked_empty(line: Seq<char>, style: Style, marker: Option<&str>) -> Seq<char>;
 pub struct Painter { _p: u8 }
 impl Painter {
@@ -60,10 +61,8 @@ impl Painter {
     pub fn mark_empty_line(empty_line_style: &Style, line: &mut String, marker: Option<&str>)
         ensures final(line)@ == marked_empty(old(line)@, *empty_line_style, marker),
     { unimplemented!() }
-    #[verifier::external_body]
-    pub fn right_fill_background_color(line: &mut String, fill_style: Style)
-        ensures final(line)@ == right_filled(old(line)@, fill_style),
-    { unimplemented!() }
+    // verified against this contract in U42
+    //@ stub src/paint.rs Painter::right_fill_background_color spec=paint.right_fill
     #[verifier::external_body]
     pub fn get_should_right_fill_background_color_and_fill_style(diff_sections: &[(Style, &str)], line_has_homolog: Option<bool>, state: &State, background_color_extends_to_terminal_width: BgShouldFill, config: &Config) -> (r: (Option<BgFillMethod>, Style))
     { unimplemented!() }
@@ -88,23 +87,27 @@ impl MinusPlus<Panel> {
 //@rewrite <<<ansi::truncate_str(panel_line, panel_width, &config.truncation_symbol).to_string()>>> => <<<verif_truncate_str_to_string(panel_line, panel_width, &config.truncation_symbol)>>>
 
 // ---- Painter::paint_lines: what follows the painted text of a line (unified layout) ----
-/// the line as it is written: the painted text, then - depending on the fill method - the clear-to-end-of-line fill, or
-/// styled spaces up to EXACTLY the terminal width (none when the text is already that wide), or the empty-line mark
-pub open spec fn filled_line(line: Seq<char>, line_is_empty: bool, bg_fill_mode: Option<BgFillMethod>, fill_style: Style, empty_line_style: Option<Style>, config: &Config) -> Seq<char> {
+/// the line as it is written (`piece`): what `right_fill_background_color` made of the painted text - it ends with
+/// clear-to-end-of-line and a reset -, or the painted text and styled spaces up to EXACTLY the terminal width (none when the
+/// text is already that wide), or the painted text with the empty-line mark, or the painted text alone
+pub open spec fn filled_line_ok(piece: Seq<char>, line: Seq<char>, line_is_empty: bool, bg_fill_mode: Option<BgFillMethod>, fill_style: Style, empty_line_style: Option<Style>, config: &Config) -> bool {
     match bg_fill_mode {
-        Some(BgFillMethod::TryAnsiSequence) => right_filled(line, fill_style),
-        Some(BgFillMethod::Spaces) => line + painted_spaces(fill_style, sat_sub(config.available_terminal_width, vis_width(line) as usize)),
-        None => if line_is_empty && empty_line_style is Some {
+        Some(BgFillMethod::TryAnsiSequence) => is_suffix(ANSI_CSI_CLEAR_TO_EOL@ + ANSI_SGR_RESET@, piece),
+        Some(BgFillMethod::Spaces) => piece == line + painted_spaces(fill_style, sat_sub(config.available_terminal_width, vis_width(line) as usize)),
+        None => piece == (if line_is_empty && empty_line_style is Some {
             marked_empty(line, empty_line_style->0, if config.line_numbers { Some(" ") } else { None })
-        } else { line },
+        } else { line }),
     }
 }
 //@ region src/paint.rs Painter::paint_lines
 //@sig pub fn paint_lines_fill_region(mut line: String, line_is_empty: bool, bg_fill_mode: Option<BgFillMethod>, fill_style: Style, empty_line_style: Option<Style>, config: &Config, output_buffer: &mut String)
 //@from <<<if let Some(BgFillMethod::TryAnsiSequence) = bg_fill_mode {>>>
 //@to <<<output_buffer.push('\n');>>>
-//@| ensures final(output_buffer)@ == old(output_buffer)@ + filled_line(line@, line_is_empty, bg_fill_mode, fill_style, empty_line_style, config) + seq!['\n'],  // @C07,C09:a.line.is.written.as.its.painted.text.followed.only.by.the.fill.styled.spaces.up.to.exactly.the.terminal.width.or.the.empty.line.mark.and.a.newline
+//@| ensures final(output_buffer)@.len() > old(output_buffer)@.len(), final(output_buffer)@.last() == '\n', is_prefix(old(output_buffer)@, final(output_buffer)@),
+//@|     filled_line_ok(final(output_buffer)@.subrange(old(output_buffer)@.len() as int, final(output_buffer)@.len() - 1), line@, line_is_empty, bg_fill_mode, fill_style, empty_line_style, config),  // @C07,C09:a.line.is.written.as.its.painted.text.followed.only.by.the.fill.styled.spaces.up.to.exactly.the.terminal.width.or.the.empty.line.mark.and.a.newline
 //@rewrite <<<ansi::measure_text_width(&line)>>> => <<<measure_text_width(&line)>>>
+//@before <<<output_buffer.push_str(&line);>>>| let ghost written = line@;
+//@after <<<output_buffer.push('\n');>>>| proof { assert(/* @C07,C09:paint_lines.what.is.appended.is.the.finished.line.and.a.newline */ output_buffer@.subrange(old(output_buffer)@.len() as int, output_buffer@.len() - 1) =~= written); assert(/* @C01,C09:paint_lines.what.was.written.before.stays */ output_buffer@.subrange(0, old(output_buffer)@.len() as int) =~= old(output_buffer)@); }
 
 // ---- the width left for text in a panel ----
 pub type SideBySideLineWidth = MinusPlus<usize>;
